@@ -34,7 +34,8 @@ Record Inv (s : state) : Prop := {
   inv_log_owner : forall e, In e (log s) -> owner s (i_key e) = Some (i_kind e, i_rid e);
   inv_at_idx : forall k r, access (st s) k = Some r -> at_idx (st s) (r_id r) = Some k;
   inv_rt_idx : forall k r, refresh (st s) k = Some (true, r) -> rt_idx (st s) (r_id r) = Some k;
-  inv_at_idx_owner : forall X k, at_idx (st s) X = Some k -> owner s k = Some (KAccess, X);
+  inv_at_idx_owner : forall X k, at_idx (st s) X = Some k -> owner s k = Some (KAccess, X) \/ owner s k = Some (KImplicit, X);
+  inv_owner_implicit : forall k r, implicit (st s) k = Some r -> owner s k = Some (KImplicit, r_id r);
   inv_rt_idx_owner : forall X k, rt_idx (st s) X = Some k -> owner s k = Some (KRefresh, X);
   inv_code_rid : forall k k' b b' r r', codes (st s) k = Some (b, r) -> codes (st s) k' = Some (b', r') ->
                                         r_id r = r_id r' -> k = k';
@@ -83,13 +84,14 @@ Qed.
 Lemma Inv_same_tables s s' :
   Inv s -> codes (st s') = codes (st s) -> access (st s') = access (st s) -> refresh (st s') = refresh (st s) ->
   at_idx (st s') = at_idx (st s) -> rt_idx (st s') = rt_idx (st s) -> device (st s') = device (st s) ->
+  implicit (st s') = implicit (st s) ->
   owner s' = owner s -> log s' = log s -> next_key s <= next_key s' -> next_rid s <= next_rid s' -> Inv s'.
 Proof.
-  intros I Hc Ha Hr Hai Hri Hd Ho Hl Hk Hn.
-  constructor; unfold no_active_code_rid, no_device_rid; rewrite ?Hc, ?Ha, ?Hr, ?Hai, ?Hri, ?Hd, ?Ho, ?Hl.
+  intros I Hc Ha Hr Hai Hri Hd Him Ho Hl Hk Hn.
+  constructor; unfold no_active_code_rid, no_device_rid; rewrite ?Hc, ?Ha, ?Hr, ?Hai, ?Hri, ?Hd, ?Him, ?Ho, ?Hl.
   - apply I. - apply I. - apply I.
   - intros k kd rid H. destruct (inv_owner_fresh s I _ _ _ H). lia.
-  - apply I. - apply I. - apply I. - apply I. - apply I. - apply I.
+  - apply I. - apply I. - apply I. - apply I. - apply I. - apply I. - apply I.
   - intros k r H. exact (inv_access_code s I k r H).
   - intros k b r H. exact (inv_refresh_code s I k b r H).
   - apply I. - apply I.
@@ -129,6 +131,8 @@ Proof.
     upd_case (i_key e) (next_key s); [exfalso; rewrite Hk in Ho; eauto|assumption].
   - apply I. - apply I.
   - intros X k H. pose proof (inv_at_idx_owner s I _ _ H) as Ho.
+    upd_case k (next_key s); [subst; exfalso; destruct Ho; eauto|assumption].
+  - intros k r H. pose proof (inv_owner_implicit s I _ _ H) as Ho.
     upd_case k (next_key s); [subst; exfalso; eauto|assumption].
   - intros X k H. pose proof (inv_rt_idx_owner s I _ _ H) as Ho.
     upd_case k (next_key s); [subst; exfalso; eauto|assumption].
@@ -149,6 +153,7 @@ Qed.
 Lemma Inv_delete_access s k : Inv s -> Inv (set_store s (delete_access (st s) k)).
 Proof.
   intros I. constructor; unfold no_active_code_rid, no_device_rid; cbn; try apply I.
+  - intros k' r H. upd_case k' k; [discriminate|now apply I].
   - intros k' r H. upd_case k' k; [discriminate|now apply I].
   - intros k' r H. upd_case k' k; [discriminate|now apply I].
   - intros k' r H. upd_case k' k; [discriminate|]. exact (inv_access_code s I _ _ H).
@@ -237,7 +242,7 @@ Proof.
   - intros k' r' H. upd_case k' k.
     + injection H as <-. subst. apply upd_eq.
     + rewrite upd_neq; [now apply I|]. intros Heq. eapply Hna; eassumption.
-  - intros X k' H. upd_case X (r_id r); [injection H as <-; subst; assumption|now apply I].
+  - intros X k' H. upd_case X (r_id r); [injection H as <-; subst; left; assumption|now apply I].
   - intros k' r' H. upd_case k' k.
     + injection H as <-. assumption.
     + exact (inv_access_code s I _ _ H).
@@ -331,4 +336,15 @@ Lemma delete_device_no_device s k b r :
 Proof.
   intros I Hd k' b' r' H Heq. cbn in H. upd_case k' k; [discriminate|].
   apply Hk. eapply (inv_device_rid s I); eassumption.
+Qed.
+
+(* access tokens minted by the authorization endpoint *)
+Lemma Inv_create_implicit s k r :
+  Inv s -> owner s k = Some (KImplicit, r_id r) -> no_access_rid (st s) (r_id r) ->
+  Inv (set_store s (create_implicit (st s) k r)).
+Proof.
+  intros I Ho Hna. constructor; unfold no_active_code_rid, no_device_rid; cbn; try apply I.
+  - intros k' r' H. rewrite upd_neq; [now apply I|]. intros Heq. eapply Hna; eassumption.
+  - intros X k' H. upd_case X (r_id r); [injection H as <-; subst; right; assumption|now apply I].
+  - intros k' r' H. upd_case k' k; [injection H as <-; subst; assumption|now apply I].
 Qed.
